@@ -364,6 +364,16 @@ def check(ctx):
         check_sim(ctx, key, wd)
     check_guards(ctx)
     check_safe(ctx)
+    # lattice membership is relative to the network's net stoichiometry: the matrices the simulators add columns of must be the
+    # products-minus-reactants counts (C03 R3.1 / R3.3) - re-emitted here
+    from ..core import SubCtx
+    from . import c03
+    sub = SubCtx(ctx)
+    c03.check_accumulation(sub)
+    c03.check_matrices(sub)
+    for rule, key, ok, where, what, detail in sub.got:
+        if rule in ('R3.1-accumulation', 'R3.3-matrix-fill'):
+            ctx.ob('R6.1-stoichiometry', '%s/%s' % (rule, key), ok, where, what, detail)
     ctx.floor('R6.1-one-column-per-event', 4)
     ctx.floor('R6.2-zero-propensity', 4)
     ctx.floor('R6.3-guard', 4)
